@@ -3,12 +3,10 @@
 package sim
 
 import (
-	"bytes"
 	"fmt"
 	"os"
 	"os/exec"
 	"path/filepath"
-	"runtime"
 	"strconv"
 	"strings"
 	"sync"
@@ -52,14 +50,6 @@ func s4SetMode(mode string) {
 	} else {
 		cgroup.DetectedCgroupType = cgroup.TypeV2
 	}
-}
-
-func goid() int {
-	var buf [64]byte
-	n := runtime.Stack(buf[:], false)
-	f := bytes.Fields(buf[:n])
-	id, _ := strconv.Atoi(string(f[1]))
-	return id
 }
 
 type s4worker struct {
